@@ -25,13 +25,13 @@ CHECKS = {
 CHECKS["C01"] = dict(
     technique="Coq exact-arithmetic model of the clipping algorithm (extracted) as oracle + soundness theorems in both directions; differential correspondence per cell",
     text="Theorems about the model (all inputs): every plane of a built cell is a wall or the bisector of a given site, hence the cell (as intersection of its half-spaces) "
-         "contains the nearest-generator region; conversely, for every regular 3D construction with the sites in order of distance, every vertex - and every convex "
+         "contains the nearest-generator region; conversely, for every regular construction (1D/2D/3D) with the sites in order of distance, every vertex - and every convex "
          "combination of vertices - is at least as close to the generator as to EVERY site, including those skipped by the safety radius (regularity is a decidable "
          "predicate, evaluated by the extracted model for each compared cell and counted in the evidence); 1D closed form. Tie: every constructed cell of every generated "
          "input (families incl. lattices, co-spherical, walls, clusters, far offsets, density contrast; 1D/2D/3D; periodic or not; masks) is compared with the cell the "
          "extracted model computes (volume, centroid, per-(neighbour, shift) face area and centroid, vertices inside all exact half-spaces).",
     note="Partial: hull(vertices) <= region <= polytope(planes) is proved; that the polytope is the hull of the maintained vertices (VerticesSpan) is not. The converse "
-         "theorem is stated for dim = 3; 1D has its own closed-form theorem, 2D relies on the per-run exact check. Rounding handled by tolerances (DESIGN 3.4). "
+         "holds in every dimensionality (unused coordinates zero). Rounding handled by tolerances (DESIGN 3.4). "
          "Known findings K1/K2/K4/K5 suppress only their signatures.",
     design="5 C01")
 CHECKS["C07"] = dict(
